@@ -284,8 +284,10 @@ def units(tier):
     add("2 ret+ret cancel1 abandon", ["ret", "ret"], cancel=1, abandon=True, RJ=0)
     add("2 ctx+chk cancel1", ["ctx", "chk"], cancel=1, RJ=0)
     if not quick:
-        add("3 ret+raise+ret cancel1", ["ret", "raise", "ret"], cancel=1)
-        add("3 ret x3 cancel0 abandon", ["ret", "ret", "ret"], cancel=0, abandon=True)
+        add("3 ret+raise+ret cancel1", ["ret", "raise", "ret"], cancel=1, RJ=0, J=0)
+        add("3 ret x3 cancel0 abandon", ["ret", "ret", "ret"], cancel=0, abandon=True, RJ=0, J=0)
         add("2 ret+chk cancel1 eager", ["ret", "chk"], cancel=1, eager=True)
-        add("2 ret+ret cancel0 T=2", ["ret", "ret"], cancel=0, T=2, J=2)
+        add("2 ret+ret cancel0 T=2", ["ret", "ret"], cancel=0, T=2, J=1, RJ=0)
+        add("2 ret+chk cancel1 RJ=1", ["ret", "chk"], cancel=1, RJ=1, J=2)
+        add("2 retexc+raise cancel0 abandon", ["retexc", "raise"], cancel=0, abandon=True, RJ=1, J=2)
     return us
